@@ -187,6 +187,12 @@ func (s *Scanner) Length() uint {
 			// Found character after the end of the schema and spaces.
 			// Example: char "s" in "{} some text"
 			length = uint(lex.End()) - 1
+			if !s.hasTrailingCharacters && isClosingBracket(s.data[length]) {
+				// The foreign byte stands directly behind the closing bracket of
+				// the top-level object or array: the bracket belongs to the schema.
+				// Example: char "x" in "{}x".
+				length++
+			}
 			break
 		}
 
@@ -202,6 +208,10 @@ func (s *Scanner) Length() uint {
 		}
 	}
 	return length
+}
+
+func isClosingBracket(c byte) bool {
+	return c == '}' || c == ']'
 }
 
 func (s *Scanner) newDocumentError(code errors.ErrorCode, c byte) errors.DocumentError {
